@@ -368,6 +368,9 @@ func writeBrokenEvidence(vd string, spec *CheckSpec, tier string, seed int, wall
 		"wall_s":   wall, "violations": 0, "assumptions": []string{"BROKEN: " + msg},
 	}
 	b, _ := json.MarshalIndent(ev, "", " ")
+	if os.Getenv("VERIF_NO_EVIDENCE") != "" { // trial runs against seeded changes must not overwrite evidence
+		return
+	}
 	os.MkdirAll(filepath.Join(vd, "evidence"), 0o755)
 	os.WriteFile(filepath.Join(vd, "evidence", spec.Property+".json"), b, 0o644)
 }
@@ -468,6 +471,9 @@ func writeEvidence(vd string, spec *CheckSpec, tier string, seed int, wall, load
 		"wall_s": round3(wall), "violations": nViol,
 	}
 	b, _ := json.MarshalIndent(ev, "", " ")
+	if os.Getenv("VERIF_NO_EVIDENCE") != "" { // trial runs against seeded changes must not overwrite evidence
+		return
+	}
 	os.MkdirAll(filepath.Join(vd, "evidence"), 0o755)
 	os.WriteFile(filepath.Join(vd, "evidence", spec.Property+".json"), b, 0o644)
 }
